@@ -325,9 +325,26 @@ def crop_checks(recs, lay, m, entry, events):
             continue
         if not ev.func.qualname.startswith('read.'):
             continue
-        if isinstance(ev.view_of, ArrView):
-            continue      # a view of a view: the first crop was checked already
         base = base_of_array(lay, m, ev.arr, events)
+        is_view = isinstance(ev.view_of, ArrView)
+        if is_view:
+            # a crop of a crop (get_trace on the chunk returned by read_subvolume): the origin moves by the first crop
+            pidx = ev.view_of.index
+            pel = pidx.elts if isinstance(pidx, Tup) else [pidx]
+            if base is None or not all(isinstance(x, SliceV) for x in pel) or len(pel) != len(ev.arr.shape or []):
+                continue
+            nb = list(base)
+            axes_ = [0, 1, 2] if len(ev.arr.shape or []) == 3 else [1, 2]
+            okv = True
+            for j, x in enumerate(pel):
+                lo_ = x.lo if x.lo is not None else C(0)
+                if not isinstance(lo_, Poly):
+                    okv = False
+                    break
+                nb[axes_[j]] = nb[axes_[j]] + lo_
+            if not okv:
+                continue
+            base = nb
         idx = ev.index
         elts = idx.elts if isinstance(idx, Tup) else [idx]
         shape = ev.arr.shape or []
@@ -361,7 +378,7 @@ def crop_checks(recs, lay, m, entry, events):
                 probs.append('position %d: index does not normalise (%r)' % (j, ix))
         # HULL: the decoded array is the minimal aligned hull of the requested window (or the whole padded axis)
         hprobs = []
-        if not probs:
+        if not probs and not is_view:
             for j, ix in enumerate(elts):
                 if j >= len(axes) or j >= len(shape) or not isinstance(shape[j], Poly):
                     continue
@@ -388,10 +405,11 @@ def crop_checks(recs, lay, m, entry, events):
                 if not ok:
                     hprobs.append('axis %s: the array covers samples [%r, %r) but the request [%r, %r) needs only its '
                                   'aligned hull' % (('IL', 'XL', 'Z')[k], base[k], base[k] + ext, rlo, rhi))
-            recs.append(Rec('HULL', m.name, entry, ev.func, ev.node, not hprobs,
-                            'fetched/decoded region is the minimal block- or unit-aligned hull of the request' if not hprobs
-                            else 'more (or less) than the units holding requested samples is fetched: ' + '; '.join(hprobs),
-                            {'shape': repr(shape)}, ev=ev))
+            if not is_view:
+                recs.append(Rec('HULL', m.name, entry, ev.func, ev.node, not hprobs,
+                                'fetched/decoded region is the minimal block- or unit-aligned hull of the request' if not hprobs
+                                else 'more (or less) than the units holding requested samples is fetched: ' + '; '.join(hprobs),
+                                {'shape': repr(shape)}, ev=ev))
         recs.append(Rec('L4', m.name, entry, ev.func, ev.node, not probs,
                         'crop %r selects exactly the requested window (array origin %r)' % (idx, base) if not probs else
                         'crop of the decoded array `%s`: %s' % (TXT(ev.node)[:70], '; '.join(probs)),
